@@ -153,6 +153,10 @@ func writeFanOut(r *hx.Rng) []hx.Zs {
 }
 
 func gen(r *hx.Rng, tier string, i int) []hx.Zs {
+	if i%14 == 6 {
+		// an entity announced again without its features, then torn down
+		return stack.Reannounce(r)
+	}
 	if i%7 == 2 {
 		// a delete call of one peer overlapped by a subscribe call of another (atomicity of RemoveSubscription)
 		return stack.DeleteOverlap(r, false)
